@@ -198,7 +198,7 @@ func checkDefs() map[string]*CheckDef {
 			Runs: func(tier string) []RunSpec {
 				return []RunSpec{
 					{Name: "options", Pkg: app, Entry: "VerifC15Options", Params: map[string]int{"K": tierPick(tier, 3, 4)}, MustCover: []string{"file added", "loader added", "ordered custom loader added"}},
-					{Name: "load", Pkg: ioc + "/configure", Entry: "VerifC15Load", Params: map[string]int{"N": tierPick(tier, 3, 4)}, MustCover: []string{"several loaders", "loader failed"}},
+					{Name: "load", Pkg: ioc + "/configure", Entry: "VerifC15Load", Params: map[string]int{"N": tierPick(tier, 3, 4)}, MustCover: []string{"several loaders", "loader failed", "two configurations built from one base list"}},
 					{Name: "many-loaders", Pkg: ioc + "/configure", Entry: "VerifC15ManyLoaders", MustCover: []string{"many loaders"}},
 					{Name: "conflicting-shapes", Pkg: ioc + "/configure", Entry: "VerifC15Conflicts", MustCover: []string{"later map replaces earlier scalar"}},
 					{Name: "merge-real-viper", Pkg: ioc + "/configure", Entry: "VerifC15Merge", Params: map[string]int{"N": tierPick(tier, 2, 3)}, MustCover: []string{"merged", "overlapping documents merged", "subtree replaced at run time", "source added after the command-line loader", "command-line arguments loaded", "source added after a first read"}},
